@@ -1089,6 +1089,11 @@ def _process_add_event_tick(
             continue
         wait_conditions = state.workers[step_name].collected_waiters
         for wait_condition in wait_conditions:
+            if wait_condition.resolved_event is not None or wait_condition.timed_out:
+                # Already resolved (by an earlier event or by its timeout): the replay
+                # of its step is pending and consumes that outcome. A later event must
+                # not resolve the same wait a second time.
+                continue
             is_match = type(tick.event) is wait_condition.waiting_for_event
             is_match = is_match and all(
                 getattr(tick.event, k, None) == v
